@@ -577,6 +577,75 @@ Fixpoint au_explain (fuel : nat) (ws : list (list bytes)) (log : bytes) : option
   end.
 
 (* ------------------------------------------------------------------------------------------ *)
+(* 5b. the concurrent audit writer: the index file behind cl.mux, with FAILING writes            *)
+(* ------------------------------------------------------------------------------------------ *)
+(* internal/auditlog/concurrent_writer.go Write: (format the record, write the per-transaction file:
+   local) ; cl.mux.Lock() ; defer cl.mux.Unlock() ; up to four cl.log.Output calls, each of which may
+   FAIL (disk full, file size limit): the failure is remembered and the remaining parts are still
+   attempted ; return errors.Join(errs...)  -- the deferred Unlock runs on every path.
+   The failure of each Output call is chosen by the SCHEDULE (a boolean next to the thread index).
+   cw_step false is the code as it is; cw_step true is the variant "explicit Unlock after the loop,
+   early return on the first failed write" (which leaves the mutex locked). *)
+Inductive cw_pc :=
+  | CWIdle
+  | CWLock (parts : list bytes)                    (* cl.mux.Lock(): blocks while another goroutine holds it *)
+  | CWIn (parts : list bytes) (failed : bool)      (* inside the critical section: parts still to write *)
+  | CWUnlock (failed : bool).                      (* the deferred cl.mux.Unlock() *)
+
+Record cw_lo := mk_cw_lo {
+  cw_todo : list (list bytes);     (* the Write calls still to make: the index parts of each *)
+  cw_pcv : cw_pc;
+  cw_res : list bool }.            (* per completed Write: did it return an error *)
+
+Record cw_sh := mk_cw_sh { cw_index : bytes; cw_locked : bool }.
+
+Definition cw_step (early_return : bool) (fail : bool) (s : cw_sh) (l : cw_lo) : cw_sh * cw_lo :=
+  match cw_pcv l with
+  | CWIdle =>
+    match cw_todo l with
+    | [] => (s, l)
+    | ps :: rest => (s, mk_cw_lo rest (CWLock ps) (cw_res l))
+    end
+  | CWLock ps =>
+    if cw_locked s then (s, l)
+    else (mk_cw_sh (cw_index s) true, mk_cw_lo (cw_todo l) (CWIn ps false) (cw_res l))
+  | CWIn [] f => (s, mk_cw_lo (cw_todo l) (CWUnlock f) (cw_res l))
+  | CWIn (p :: ps) f =>
+    if fail then
+      if early_return
+      then (s, mk_cw_lo (cw_todo l) CWIdle (cw_res l ++ [true]))     (* return err: the mutex stays locked *)
+      else (s, mk_cw_lo (cw_todo l) (CWIn ps true) (cw_res l))
+    else (mk_cw_sh (cw_index s ++ p) (cw_locked s), mk_cw_lo (cw_todo l) (CWIn ps f) (cw_res l))
+  | CWUnlock f => (mk_cw_sh (cw_index s) false, mk_cw_lo (cw_todo l) CWIdle (cw_res l ++ [f]))
+  end.
+
+Definition cw_sys_step (early_return : bool) (st : cw_sh * list cw_lo) (x : nat * bool) : cw_sh * list cw_lo :=
+  let '(s, ls) := st in
+  match nth_error ls (fst x) with
+  | Some l => let '(s', l') := cw_step early_return (snd x) s l in (s', cset_nth ls (fst x) l')
+  | None => st
+  end.
+Definition cw_run (early_return : bool) (sched : list (nat * bool)) (st : cw_sh * list cw_lo) :=
+  fold_left (cw_sys_step early_return) sched st.
+Definition cw_start (writes : list (list bytes)) : cw_lo := mk_cw_lo writes CWIdle [].
+Definition cw_sh0 : cw_sh := mk_cw_sh [] false.
+
+Definition cw_in_cs (l : cw_lo) : nat :=
+  match cw_pcv l with CWIn _ _ | CWUnlock _ => 1 | _ => 0 end.
+Definition cw_holders (ls : list cw_lo) : nat := list_sum (map cw_in_cs ls).
+Definition cw_busy (l : cw_lo) : bool :=
+  match cw_pcv l, cw_todo l with CWIdle, [] => false | _, _ => true end.
+
+(* sequential reference used by the correspondence: one goroutine, every Write run to completion;
+   a Write made while the file size limit is in force fails in EVERY Output call *)
+Definition cw_seq_write (st : cw_sh * list bool) (w : list bytes * bool) : cw_sh * list bool :=
+  let '(s, res) := st in
+  let l := cw_start [fst w] in
+  let '(s', l') := citerate (4 + length (fst w)) (fun x => cw_step false (snd w) (fst x) (snd x)) (s, l) in
+  (s', res ++ cw_res l').
+Definition cw_seq (ws : list (list bytes * bool)) : cw_sh * list bool := fold_left cw_seq_write ws (cw_sh0, []).
+
+(* ------------------------------------------------------------------------------------------ *)
 (* 6. the shared-write footprint of the evaluation path (regenerated facts: coq/gen/FactsC06.v) *)
 (* ------------------------------------------------------------------------------------------ *)
 (* One element per syntactic WRITE found by the go/ast translator (harness/cmd/verif-facts/c06.go)
@@ -614,3 +683,16 @@ Definition fw_all_allowed (l : list fw) : bool := forallb fw_allowed l.
 (* the repaired statement of F27 must be present and recognised as a clipped append *)
 Definition fw_is_f27_merge (w : fw) : bool :=
   String.eqb (fw_func w) "Rule.doEvaluate" && String.eqb (fw_root w) "rangecopy-clipped".
+
+(* the intern table is modelled (section 3) as ONE atomic step per transformationID call: the whole
+   body must be a single critical section - the first two statements take the mutex and defer its
+   release, and no other lock operation (RLock / second Lock region) occurs in the function *)
+Fixpoint fw_strs_eqb (a b : list string) : bool :=
+  match a, b with
+  | [], [] => true
+  | x :: a', y :: b' => String.eqb x y && fw_strs_eqb a' b'
+  | _, _ => false
+  end.
+Definition fw_intern_shape_ok (first_two lock_calls : list string) : bool :=
+  fw_strs_eqb first_two ["transformationIDsLock.Lock()"%string; "defer transformationIDsLock.Unlock()"%string] &&
+  fw_strs_eqb lock_calls ["Lock"%string; "defer Unlock"%string].
